@@ -909,3 +909,50 @@ Qed.
 Example noninterference_guard_sat :
   forallb (fun o => negb (foreign_delete 1 o)) [Ingest 1 w_a [2]; Ingest 0 w_a [1]; AddAlias 0 w_a w_aXb1; Delete 1 w_a; Restart; QSearch 1 w_a] = true.
 Proof. reflexivity. Qed.
+
+(* ---------- unalias is exact ---------- *)
+(* RemoveAliases idx [al] of org X removes exactly the pair (al -> idx): afterwards alias a of org Y
+   resolves to t iff it did before and (Y, a, t) is not the removed pair. *)
+Lemma trip_is_true X a b t : trip_is X a b t = true <-> t = (X, a, b).
+Proof.
+  destruct t as [[o k] i]. unfold trip_is. cbn [fst snd]. split.
+  - intros H. apply andb_true_iff in H. destruct H as [H H3]. apply andb_true_iff in H. destruct H as [H1 H2].
+    apply N.eqb_eq in H1. apply name_eqb_eq in H2, H3. subst. reflexivity.
+  - intros H. inversion H; subst. rewrite N.eqb_refl, !name_eqb_refl. reflexivity.
+Qed.
+
+Theorem unalias_exact : forall s X idx al Y a t,
+  is_empty idx = false ->
+  (In t (alias_targets (rem_alias s X idx al) Y a) <->
+   In t (alias_targets s Y a) /\ ~ (Y = X /\ a = al /\ t = idx)).
+Proof.
+  intros s X idx al Y a t Hne. unfold alias_targets, rem_alias. rewrite Hne. cbn [amem].
+  rewrite !in_map_iff. split.
+  - intros (tr & E & H). apply filter_In in H. destruct H as [H P]. apply filter_In in H. destruct H as [H Q].
+    split.
+    + exists tr. split; auto. apply filter_In. split; auto.
+    + intros (EY & Ea & Et). subst.
+      apply andb_true_iff in P. destruct P as [P1 P2]. apply N.eqb_eq in P1. apply name_eqb_eq in P2.
+      assert (T : trip_is X al (snd tr) tr = true).
+      { apply trip_is_true. destruct tr as [[o k] i]. cbn in *. subst. reflexivity. }
+      rewrite T in Q. discriminate.
+  - intros [(tr & E & H) N]. apply filter_In in H. destruct H as [H P].
+    exists tr. split; auto. apply filter_In. split; auto. apply filter_In. split; auto.
+    destruct (trip_is X al idx tr) eqn:T; auto. apply trip_is_true in T. subst tr. cbn in *.
+    apply andb_true_iff in P. destruct P as [P1 P2]. apply N.eqb_eq in P1. apply name_eqb_eq in P2.
+    exfalso. apply N. subst. auto.
+Qed.
+
+(* ... and it does not touch what is stored, nor the table lists *)
+Lemma unalias_frame s X idx al :
+  evs (rem_alias s X idx al) = evs s /\ ftabs (rem_alias s X idx al) = ftabs s /\ akeys (rem_alias s X idx al) = akeys s.
+Proof. unfold rem_alias. destruct (is_empty idx); auto. Qed.
+
+(* the selection is exact: every stored event of X whose index is in the expansion is returned *)
+Theorem query_complete : forall ops X expr e,
+  In e (evs (run ops)) -> e_org e = X -> In (e_tab e) (expand (run ops) X false expr) ->
+  In (e_id e) (map e_id (q_events (run ops) X expr)).
+Proof.
+  intros ops X expr e He Ho Ht. apply in_map. unfold q_events. apply filter_In. split; auto.
+  unfold sel_tab. apply andb_true_iff. split; [apply N.eqb_eq; exact Ho | apply mem_In; exact Ht].
+Qed.
